@@ -132,7 +132,7 @@ class Table:
         ms = []
         rows = {r["member"]: r for r in self.rows(cls)} if cls in self.classes else {}
         for name, x in j.items():
-            if name in drop:
+            if name in drop or x is None:      # a JSON null member is treated like an absent one (marked `bad` by the caller if it raises)
                 continue
             r = rows.get(name)
             ms.append([name, self.wire_of_json(r["kind"], x) if r else tok("?unknown-member")])
